@@ -153,6 +153,9 @@ class DSProxy:
       s = _ACTIVE[0]
       if s is not None and s.cur is not None:
         s.yield_('ds.' + n)
+        if n in ('create_trial', 'delete_trial') and a:
+          # which trial names were deleted / created, in order (id re-use inside a batch is a known defect)
+          s.name_events.append((n, getattr(a[0], 'name', a[0])))
       return f(*a, **k)
 
     return w
@@ -202,6 +205,7 @@ class Sched:
     self.tasks = {}
     self.cur = None
     self.trace = []
+    self.name_events = []
     self.choices = []
     self.main = _threading.Semaphore(0)
     self.last = None
